@@ -35,6 +35,12 @@ open Wire Enum
     tinit <n> <byEnergy> <aggregate> ; rows    → `err` / `ok rows` (Truncate / PolyTruncate composite incl. `__init__`)
     xsolve <spin> poly ; vars ; poly  /  xsolve <spin> bqm ; vars ; lin ; quad ; off → rows IN ORDER (`vars` = `list(problem.variables)`, the gray-code column order; each row printed by sorted label)
                                                  (ExactPolySolver.sample_poly / ExactSolver.sample as coded: `exactRows`)
+    pcomp <spin> <scalar|-> <bias_range> <poly_range|-> ; ignored ; poly → `ok rows` / `err value` / `err zerodiv`
+                                                 (PolyScaleComposite.sample_poly total over scalar: `polyScaleCompositeFull`, exact child;
+                                                 `err value` = the refusal of scalar 0, `err zerodiv` = a range end 0 with scalar None)
+    track <sample|ising|qubo> <spin> ; lin ; quad ; off ; lin ; quad ; off …   → `n#rows#rows…#out` : one TrackingComposite (exact child
+                                                 implementing `sample`) called once per (lin, quad, off) triple through that entry point
+                                                 (`trackingCall` folded from the empty log): log length, every logged output, `output`
     poly   = `bias@l&l&l|…`   fixed/lin = `l=v,…`   quad = `u&v=b,…`   reds = `u&v&p,…` -/
 
 def sepBy (c : String) (s : String) : List String := if s = "" ∨ s = "-" then [] else s.splitOn c
@@ -246,6 +252,40 @@ def answer (line : String) : String :=
         | some rows => "ok " ++ showRows rows
         | none => "err"
     | _, _, _ => "bad"
+  | ["pcomp", spin, sc, br, pr] =>
+    let parseRange? (t : String) : Option RangeArg :=
+      match t.splitOn ":" with
+      | [a] => (parseRat? a).map RangeArg.num
+      | [a, b] => do let a ← parseRat? a; let b ← parseRat? b; pure (RangeArg.pair a b)
+      | _ => none
+    let sc? : Option (Option Rat) := if sc = "-" then some none else (parseRat? sc).map some
+    let pr? : Option (Option RangeArg) := if pr = "-" then some none else (parseRange? pr).map some
+    match sc?, parseRange? br, pr?, (sepBy "|" (field parts 1)).mapM (fun t => parseLabels t "&"), parsePoly (field parts 2) with
+    | some sc, some br, some pr, some ign, some p =>
+      match polyScaleCompositeFull (exactPoly (spin = "1")) p sc br pr ign with
+      | .ok rows => "ok " ++ showRows rows
+      | .error .scalarZero => "err value"
+      | .error .rangeZero => "err zerodiv"
+    | _, _, _, _, _ => "bad"
+  | ["track", entry, spin] =>
+    let rec triples (i : Nat) (fuel : Nat) : Option (List TrackedInput) :=
+      match fuel with
+      | 0 => some []
+      | fuel + 1 =>
+        if i ≥ parts.length then some []
+        else
+          match parseAssign (field parts i), parseQuad (field parts (i + 1)), parseRat? (field parts (i + 2)) with
+          | some lin, some quad, some off =>
+            let inp : TrackedInput := if entry = "sample" then .bqm ⟨spin = "1", lin, quad, off⟩
+                                      else if entry = "ising" then .ising lin quad else .qubo lin quad
+            (triples (i + 3) fuel).map (inp :: ·)
+          | _, _, _ => none
+    match triples 1 parts.length with
+    | some inputs =>
+      let log : TrackLog := inputs.foldl (fun log inp => (trackingCall .sample exactBqm log inp).2) []
+      String.intercalate "#" ([toString log.length] ++ log.map (fun e => showRows e.2) ++
+        [match trackingOutput log with | some o => showRows o | none => "none"])
+    | none => "bad"
   | ["pfull", spin, ch, fx] =>
     match parsePoly (field parts 1), parseAssign (field parts 2) with
     | some p, some fixed =>
